@@ -171,10 +171,12 @@ func (w *World) checkWellFormed(n *Node, prev, cur *Snap, op OpInfo) {
 	if op.Kind == "propose" && op.OK && op.Created != nil {
 		v := op.Created
 		w.Res.Count("c09_created_checked", 1)
-		lw, lok := weightOf(prev, v.LeftParentHash)
-		rw, rok := weightOf(prev, v.RightParentHash)
+		// parents are looked up after the call (they must have survived it); the previous snapshot decides whether
+		// they were tips, unless the retry ticker may have admitted vertices in between
+		lw, lok := weightOf(cur, v.LeftParentHash)
+		rw, rok := weightOf(cur, v.RightParentHash)
 		if !lok || !rok {
-			w.Violate("C09", "created-on-unknown-parent", fmt.Sprintf("node %s: created vertex %s references a parent that was not in the ledger before", n.Name, Hex(v.Hash)))
+			w.Violate("C09", "created-on-dropped-or-unknown-parent", fmt.Sprintf("node %s: created vertex %s references a parent that is not in the ledger after the call", n.Name, Hex(v.Hash)))
 		} else {
 			want := lw
 			if rw > want {
@@ -185,11 +187,11 @@ func (w *World) checkWellFormed(n *Node, prev, cur *Snap, op OpInfo) {
 				w.Violate("C09", "created-weight", fmt.Sprintf("node %s: created vertex %s has weight %d, max(parent weights)+1 is %d", n.Name, Hex(v.Hash), v.Weight, want))
 			}
 			for _, p := range distinctParents(v) {
-				if !prev.Leaves[p] {
-					w.Violate("C09", "created-on-non-tip", fmt.Sprintf("node %s: created vertex %s references %s which was not a tip at that moment", n.Name, Hex(v.Hash), Hex(p)))
-				}
 				if _, ok := cur.Live[p]; !ok {
 					w.Violate("C09", "created-on-dropped-tip", fmt.Sprintf("node %s: created vertex %s references %s which is no longer in the live DAG", n.Name, Hex(v.Hash), Hex(p)))
+				}
+				if !n.BackgroundMayAct(prev) && !prev.Leaves[p] {
+					w.Violate("C09", "created-on-non-tip", fmt.Sprintf("node %s: created vertex %s references %s which was not a tip at that moment", n.Name, Hex(v.Hash), Hex(p)))
 				}
 			}
 		}
@@ -203,6 +205,9 @@ func (w *World) checkWellFormed(n *Node, prev, cur *Snap, op OpInfo) {
 		wasParked := map[H]bool{}
 		for _, p := range prev.Parked {
 			wasParked[p.Vertex.Hash] = true
+		}
+		for h := range n.Orphans {
+			wasParked[h] = true
 		}
 		for h := range cur.Live {
 			if _, ok := prev.Live[h]; !ok && !wasParked[h] {
